@@ -114,7 +114,7 @@ def run_unit(unit, seed=0, both=False):
                 groups.setdefault(len(ob.assumptions), []).append(ob)
             for _, obs in sorted(groups.items()):
                 vs = solve.prove_group(obs[0].assumptions, [ob.goal for ob in obs], seed=seed, both=both,
-                                       lemmas=_proved_lib() if unit.use_lemmas else None,
+                                       lemmas=[l for l in _proved_lib() if l.name not in unit.info.get('lib_exclude', ())] if unit.use_lemmas else None,
                                        split_depth=unit.info.get('split_depth', 1))
                 for ob, v in zip(obs, vs):
                     model = decode_model(v.model, p.ctx.inputs) if v.status == 'refuted' else None
